@@ -335,6 +335,9 @@ func (c *SCIONClient) measureClockOffsetSCION(ctx context.Context, mtrcs *scionC
 	}
 	buffer.PushLayer(scionLayer.LayerType())
 
+	// Fallback for a missing kernel tx timestamp: a reading that is not after the
+	// transmission, so that the client's timestamps still enclose the exchange.
+	cTxTimeFallback := timebase.Now()
 	n, err := conn.WriteToUDPAddrPort(buffer.Bytes(), nextHop)
 	if err != nil {
 		return time.Time{}, 0, err
@@ -344,7 +347,7 @@ func (c *SCIONClient) measureClockOffsetSCION(ctx context.Context, mtrcs *scionC
 	}
 	cTxTime1, id, err := udp.ReadTXTimestamp(conn)
 	if err != nil || id != 0 {
-		cTxTime1 = timebase.Now()
+		cTxTime1 = cTxTimeFallback
 		c.Log.LogAttrs(ctx, slog.LevelError, "failed to read packet tx timestamp", slog.Any("error", err))
 	}
 	mtrcs.reqsSent.Inc()
